@@ -88,3 +88,4 @@ EDITS += [
     {'id': 'inplace-on-copy', 'expect': 'silent', 'file': R, 'old': '    Y = y / y_step\n', 'new': '    Y = np.array(y, dtype=np.float64)\n    Y /= y_step\n'},
     {'id': 'multiply-by-inverse-step', 'expect': 'no-alarm', 'file': R, 'old': '    Y = y / y_step\n', 'new': '    Y = np.array(y, dtype=np.float64)\n    Y *= 1.0 / y_step\n'},
 ]
+
